@@ -375,8 +375,13 @@ func (r *Run) resolveMsgs(pm []PMsg) ([]klevdb.Message, []Msg) {
 			val = make([]byte, int64(len(p.Val))+p.Pad)
 			copy(val, p.Val)
 		}
-		ks[i] = klevdb.Message{Offset: p.Junk, Time: t, Key: p.Key, Value: val}
-		ms[i] = Msg{US: us, Key: p.Key, Val: val}
+		key := p.Key
+		if p.KPad > 0 {
+			key = make([]byte, int64(len(p.Key))+p.KPad)
+			copy(key, p.Key)
+		}
+		ks[i] = klevdb.Message{Offset: p.Junk, Time: t, Key: key, Value: val}
+		ms[i] = Msg{US: us, Key: key, Val: val}
 	}
 	return ks, ms
 }
